@@ -216,7 +216,7 @@ def upload(rng, gname=None):
         plen = plens[p] if p < n else 1000
         b, l = rng.choice([(0, min(plen, 100)), (0, 0), (0, min(plen, 16384)), (0, 16385), (max(0, plen - 10), 10), (max(0, plen - 10), 11),
                            (4294967295, 1), (4294967200, 96), (4294967295, 4294967295), (plen, 0), (plen, 1), (1, min(plen - 1, 16384)),
-                           (0, plen)])
+                           (0, plen), (0, min(plen + 1, 16384)), (0, 16384), (1, 16384)])
         return send(L, fr('Request', p, b, l))
     if len(own) < n:
         # a well-formed request for a piece we hold (served, the piece stays loaded), then one for a piece we lack,
@@ -623,6 +623,8 @@ def stale_choke(rng):
     steps += [{'op': 'connect', 'peer': 1}, send(1, hs(), bf(range(n))), send(1, fr('Unchoke')), {'op': 'advance', 'ms': 300}]
     for _ in range(rng.randint(1, 3)):
         steps.append(send(0, fr(rng.choice(['Choke', 'Choke', 'Unchoke']))))
+    if rng.random() < 0.5:
+        steps.append({'op': 'close', 'peer': 0})            # its stale assignment names a piece we own by now
     steps.append({'op': 'advance', 'ms': 100})
     sc = base(gname, peers, steps, [{'k': 'peers', 'peers': []}], pat=rng.randrange(251))
     sc['family'] = 'stale_choke'
@@ -907,4 +909,110 @@ def orphaned(rng):
     sc = base(gname, [b, a, c], steps, [{'k': 'peers', 'peers': []}], pat=rng.randrange(251))
     sc['family'] = 'honest'
     sc['essential'] = [1, 2]
+    return sc
+
+
+def choked_delivery(rng):
+    """C10/C12/C01: a peer chokes us in the middle of a piece and still delivers what it had been asked for (the
+    blocks were on their way).  Each such block is an accepted block: further requests follow while blocks remain,
+    and the piece completes with the last one - choked or not."""
+    gname = rng.choice(['g3', 'g2', 'g3'])
+    pl, files, n, plens = geo(gname)
+    a = peer(0, set(range(n)), serve='none', rude=True, lifo=rng.random() < 0.5)
+    b = peer(1, set(range(n)), serve='good')
+    steps = [{'op': 'connect', 'peer': 0}, send(0, hs(), bf(range(n))), send(0, fr('Unchoke')),
+             send(0, fr('Choke')), {'op': 'serve', 'peer': 0, 'mode': 'good'}, {'op': 'advance', 'ms': rng.choice([5, 100])}]
+    if rng.random() < 0.7:
+        steps.append(send(0, fr('Unchoke')))
+        steps.append({'op': 'advance', 'ms': 100})
+        if rng.random() < 0.5:
+            steps += [send(0, fr('Choke')), {'op': 'advance', 'ms': 50}, send(0, fr('Unchoke'))]
+    steps += [{'op': 'connect', 'peer': 1}, send(1, hs(), bf(range(n))), send(1, fr('Unchoke')), {'op': 'advance', 'ms': 25000, 'slice': 1000}]
+    sc = base(gname, [a, b], steps, [{'k': 'peers', 'peers': []}], pat=rng.randrange(251))
+    sc['family'] = 'honest'
+    sc['essential'] = [1]
+    return sc
+
+
+def init_window(rng):
+    """C11: a piece is completed on another connection between the moment the manager takes the bitfield for a
+    newcomer (Init) and the moment the newcomer's task acts on it (the reply is handed over a little later): the
+    bitfield does not contain the piece, so its Have must still be announced on the new connection."""
+    gname = rng.choice(['g4', 'g2', 'g3'])
+    pl, files, n, plens = geo(gname)
+    a = peer(0, set(range(n)), serve='none', hold=0)
+    b = peer(1, set(), serve='none')
+    out = rng.random() < 0.4
+    if out:
+        b['listen'] = True
+    steps = [{'op': 'advance', 'ms': 10}, {'op': 'connect', 'peer': 0}, send(0, hs(), bf(range(n))), send(0, fr('Unchoke'))]
+    if not out:
+        steps.append({'op': 'connect', 'peer': 1})
+    # the seeder starts answering; the newcomer's handshake arrives while blocks are in flight and the reply to its
+    # Init is delayed by a few milliseconds, during which pieces complete
+    steps += [{'op': 'delay_replies', 'ms': rng.choice([2, 5, 20]), 'count': 1, 'settle': False},
+              {'op': 'serve', 'peer': 0, 'mode': 'good', 'settle': False}]
+    if out:
+        steps.append({'op': 'advance', 'ms': 1})
+    steps += [send(1, hs()), {'op': 'advance', 'ms': 100}, send(1, fr('Unchoke')), {'op': 'advance', 'ms': 300}]
+    sc = base(gname, [a, b], steps, [{'k': 'peers', 'peers': [1] if out else []}], pat=rng.randrange(251))
+    sc['family'] = 'midflight'
+    return sc
+
+
+def delayed(rng, gen, **kw):
+    """any family, with the manager's replies to the connection tasks handed over late at random moments"""
+    sc = gen(rng, **kw)
+    steps = []
+    for st in sc['steps']:
+        if rng.random() < 0.25:
+            steps.append({'op': 'delay_replies', 'ms': rng.choice([1, 3, 10, 50]), 'count': rng.choice([1, 1, 2, 4]), 'settle': False})
+        steps.append(st)
+    sc['steps'] = steps
+    sc['delayed'] = True
+    return sc
+
+
+def delayed_adversarial(rng):
+    return delayed(rng, adversarial)
+
+
+def delayed_honest(rng):
+    return delayed(rng, honest)
+
+
+def delayed_reassign(rng):
+    return delayed(rng, reassign)
+
+
+def delayed_upload(rng):
+    return delayed(rng, upload)
+
+
+def delayed_choking(rng):
+    return delayed(rng, choking)
+
+
+def stale_kill(rng):
+    """C12: a connection is lost while the manager still records a piece for it that somebody else has completed in
+    the meantime (end game, two peers fetch the same piece; the first one's task is held up in a call to the manager
+    while the second one delivers, and its peer is gone when it comes back).  An owned piece stays owned."""
+    gname = rng.choice(['g4', 'g2', 'g3'])
+    pl, files, n, plens = geo(gname)
+    x = rng.randrange(n)
+    y = rng.choice([p for p in range(n) if p != x])
+    a = peer(0, {x}, serve='none')
+    b = peer(1, {x}, serve='none')
+    c = peer(2, set(range(n)), serve='good')
+    steps = [{'op': 'connect', 'peer': 0}, send(0, hs(), bf({x})), send(0, fr('Unchoke')),
+             {'op': 'connect', 'peer': 1}, send(1, hs(), bf({x})), send(1, fr('Unchoke')),
+             {'op': 'delay_replies', 'ms': rng.choice([20, 40]), 'count': 1, 'settle': False},
+             dict(send(0, fr('Have', y)), settle=False),
+             {'op': 'serve', 'peer': 1, 'mode': 'good', 'scan': False},        # (a few ms of virtual time: the first task is still held up)
+             {'op': 'close', 'peer': 0, 'settle': False},
+             {'op': 'advance', 'ms': 200},
+             {'op': 'connect', 'peer': 2}, send(2, hs(), bf(range(n))), send(2, fr('Unchoke')), {'op': 'advance', 'ms': 25000, 'slice': 1000}]
+    sc = base(gname, [a, b, c], steps, [{'k': 'peers', 'peers': []}], pat=rng.randrange(251))
+    sc['family'] = 'honest'
+    sc['essential'] = [2]
     return sc
